@@ -6,6 +6,8 @@ Schema format: entities = list of {'attrs': [PK, rel attrs...]} as in c13_impl (
 object's global handle).  Ops:
     ["new", oid, ent, [[attr, partner_oid], ...]]
     ["del", oid, ent]         obj.delete()
+    ["del", oid, ent, [pe, poid, pa]]   the same object reached as getattr(pe[poid], pa) - an unloaded placeholder when the peer holds the
+                                        reference in its own row and nothing else has loaded the object in this session
     ["bulk", ent, [oids]]     ent.select(lambda x: x.id in oids).delete(bulk=True), in a session of its own
 A history is a list of sessions (lists of ops); each session ends with commit()."""
 import itertools, json, os, sqlite3, sys, tempfile
@@ -44,7 +46,17 @@ S15C = {'entities': [
     {'attrs': [PK, A_ref(1, 2, required=True)], 'ckeys': []},
     {'attrs': [PK, A_ref(3, 2, required=True)], 'ckeys': []},
 ]}
-SCHEMAS = {'S15': S15, 'S15B': S15B, 'S15C': S15C}
+# an entity that holds the columns of its one-to-one references itself (both sides optional: the entity with the smaller name gets the
+# column), one cascading (a02) and one that is cleared (a03), and that is referenced by notes (a01) - so that it can be reached as an
+# unloaded placeholder through note.a01 and deleted without ever being read
+S15D = {'entities': [
+    {'attrs': [PK, A_set(1, 1), A_ref(2, 1, cascade=True), A_ref(3, 1)], 'ckeys': []},
+    {'attrs': [PK, A_ref(0, 1)], 'ckeys': []},                                    # note: optional reference to E0
+    {'attrs': [PK, A_ref(0, 2), A_set(4, 1)], 'ckeys': []},                       # one-to-one partner, cascaded from E0.a02 (column in E0's row); with children E4
+    {'attrs': [PK, A_ref(0, 3)], 'ckeys': []},                                    # one-to-one partner, reference cleared (column in E0's row)
+    {'attrs': [PK, A_ref(2, 2, required=True)], 'ckeys': []},
+]}
+SCHEMAS = {'S15': S15, 'S15B': S15B, 'S15C': S15C, 'S15D': S15D}
 
 
 class World15(object):
@@ -104,8 +116,15 @@ class World15(object):
                             objs[(e, oid)] = self.w.ents[e](**kw)
                         elif op[0] == 'del':
                             e = op[2]
-                            try: o = get(e, op[1])
-                            except orm.ObjectNotFound: res.append(('gone', '', self._marked(objs))); continue
+                            o = None
+                            if len(op) > 3 and (e, op[1]) not in objs:
+                                pe, poid, pa = op[3]
+                                try: o = getattr(get(pe, poid), aname(pa))
+                                except orm.ObjectNotFound: o = None
+                                if o is not None and o._pkval_ != op[1]: o = None
+                            if o is None:
+                                try: o = get(e, op[1])
+                                except orm.ObjectNotFound: res.append(('gone', '', self._marked(objs))); continue
                             o.delete()
                         elif op[0] == 'bulk':
                             E = self.w.ents[op[1]]
@@ -158,6 +177,40 @@ class World15(object):
             return sorted(objs), sorted(links), viol
         finally:
             con.close()
+
+
+def run_memory_ddl_bulk(inner_commit=True, ddl_session=True):
+    """Fixed scenario on an in-memory database (the connection survives its sessions): P(1) with required children K(1), K(2); a
+    db_session(ddl=True) that creates a table, commits, and creates another one; then P.select().delete(bulk=True) in a new session.
+    Returns the rows of P and K afterwards and PRAGMA foreign_keys as the bulk-delete session sees it."""
+    orm = B.orm_module() if hasattr(B, 'orm_module') else __import__('pony.orm', fromlist=['x'])
+    db = orm.Database('sqlite', ':memory:')
+    P = type('P', (db.Entity,), {'id': orm.PrimaryKey(int), 'kids': orm.Set('K')})
+    K = type('K', (db.Entity,), {'id': orm.PrimaryKey(int), 'p': orm.Required('P')})
+    db.generate_mapping(create_tables=True)
+    out = {}
+    try:
+        with orm.db_session:
+            p = P(id=1); K(id=1, p=p); K(id=2, p=p)
+        if ddl_session:
+            with orm.db_session(ddl=True):
+                db.execute('create table if not exists t1 (x int)')
+                if inner_commit: orm.commit()
+                db.execute('create table if not exists t2 (x int)')
+        err = None
+        try:
+            with orm.db_session:
+                out['foreign_keys'] = db.execute('PRAGMA foreign_keys').fetchone()[0]
+                P.select().delete(bulk=True)
+        except Exception as ex:
+            err = type(ex).__name__
+        with orm.db_session:
+            out['P'] = sorted(db.select('select id from P'))
+            out['K'] = sorted(tuple(r) for r in db.select('select id, p from K'))
+        out['error'] = err
+    finally:
+        db.disconnect()
+    return out
 
 
 def run_history(sname, sessions):
